@@ -544,6 +544,31 @@ class C20(Profile):
         ops = Profile.setup_ops(self, run, rng)
         ops.append({"op": "seed_second_file", "names": P.pick(rng, [["blk"], ["other"], ["blk", "a"]]),
                     "sec": P.pick(rng, ["sec", "zz"]), "compr": "Auto"})
+        if rng.random() < 0.6:
+            # a block whose entities link each other, and a small metadata tree: what copies have to get right
+            ops += [
+                {"op": "create_block", "name": "blk", "type": "t", "compr": "Auto"},
+                {"op": "create_array", "blk": 0, "name": "a", "type": "t", "dtype": "float64", "shape": [4],
+                 "vseed": 3, "route": "data", "compr": "Auto"},
+                {"op": "create_array", "blk": 0, "name": "n1", "type": "t", "dtype": "int16", "shape": [2, 3],
+                 "vseed": 5, "route": "data", "compr": "Auto"},
+                {"op": "append_dim", "arr": 0, "k": "range_self", "index": None},
+                {"op": "create_group", "blk": 0, "name": "a", "type": "t"},
+                {"op": "link_append", "okind": "group", "o": 0, "list": 0, "t": 0},
+                {"op": "link_append", "okind": "group", "o": 0, "list": 0, "t": 1},
+                {"op": "create_tag", "blk": 0, "name": "a", "type": "t", "position": [1.0]},
+                {"op": "link_append", "okind": "tag", "o": 0, "list": 0, "t": rng.randrange(2)},
+                {"op": "create_feature", "tag": 0, "arr": 1, "lt": "untagged"},
+                {"op": "create_mtag", "blk": 0, "name": "a", "type": "t", "pos": 0, "ext": None},
+                {"op": "create_source", "par": 0, "name": "a", "type": "t"},
+                {"op": "link_append", "okind": "array", "o": 0, "list": 0, "t": 0},
+                {"op": "create_section", "par": 0, "name": "sec", "type": "t"},
+                {"op": "create_property", "sec": 0, "name": "p", "t": "str", "route": "list", "vals": ["x", "ü"]},
+                {"op": "create_section", "par": 1, "name": "sub", "type": "t"},
+                {"op": "create_property", "sec": 1, "name": "p", "t": "int", "route": "dtype", "vals": []},
+            ]
+            if rng.random() < 0.5:
+                ops.append({"op": "set_metadata", "h": 2, "sec": 0})
         return ops
 
 
